@@ -1479,19 +1479,29 @@ def r6b_matrix_rows(ctx):
             if shp is not None and shp[0] == "tuple" and len(shp[1]) == 2:
                 alloc = shp[1][0]
     trows = F.fn("idx", F.sym(w.fn.args.args[1].arg), F.const(2)) if len(w.fn.args.args) > 1 else None
-    views = [(v, st) for _nm, v, st in w.all_inits if _rat(v) and any(d[0] == "fn" and d[1].endswith(".view") for d in C.walk_atoms(v))]
-    if len(rets) == 1 and alloc is not None and trows is not None and len(views) == 1:
+    def is_view(v):
+        return _rat(v) and any(d[0] == "fn" and d[1].endswith(".view") for d in C.walk_atoms(v))
+    # where the matrix becomes complex: a rebinding of the matrix, or the returned expression itself
+    views = [(w.init_guards.get(id(st), ()), st) for _nm, v, st in w.all_inits if is_view(v)]
+    views += [(r[1], r[2]) for r in rets if is_view(r[0])]
+    if rets and alloc is not None and trows is not None and views:
         # decided for the four Nastran matrix types (1, 2 real; 3, 4 complex): the type field of the trailer is given each value in turn
         mt = F.fn("idx", F.sym(w.fn.args.args[1].arg), F.const(4))
         good, detail, undecided = True, None, None
+
+        def holds(guard, sub):
+            ts = [(C.truth_of(C.settle(sub(c))), pol) for c, pol in guard if _rat(c)]
+            if any(t is not None and t != pol for t, pol in ts):
+                return False
+            return None if any(t is None for t, _pol in ts) else True
         for k in (1, 2, 3, 4):
             sub = C.renamer([(mt, F.const(k))])
             al = C.settle(sub(alloc))
-            ts = [(C.truth_of(C.settle(sub(c))), pol) for c, pol in w.init_guards.get(id(views[0][1]), ()) if _rat(c)]
-            if any(t is None for t, _pol in ts) or any(d[0] == "fn" and d[1] == "phi" for d in C.walk_atoms(al)):
+            hs = [holds(g, sub) for g, _st in views]
+            if any(h is None for h in hs) or any(d[0] == "fn" and d[1] == "phi" for d in C.walk_atoms(al)):
                 undecided = f"type {k}"
                 continue
-            viewed = all(t == pol for t, pol in ts)
+            viewed = any(hs)
             if viewed != C.same(al, 2 * trows):
                 good, detail = False, {"matrix type": k, "rows allocated": repr(C.norm(al)), "viewed as complex": viewed}
         if good and undecided is not None:
@@ -1522,26 +1532,62 @@ def _strip_calls(v):
     return out
 
 
+def _lines_split(tot):
+    """lines of one block = 2 + a // p  ->  (a, p)"""
+    if tot is None:
+        return None
+    p = C.fn_parts(tot - 2)
+    if p is not None and p[0] == "floordiv" and len(p[1]) == 2 and _rat(p[1][0]) and _rat(p[1][1]):
+        return p[1][0], p[1][1]
+    return None
+
+
 def r7_announced_format(ctx):
     """the values-per-line and field width announced in an ASCII matrix header reach the reader and the skipper unharmed, whatever digits they
     start with"""
-    w, call = _loader_with(ctx, "_loadop4_ascii", "_rd_dense_ascii")
-    if w is None:
+    rds = [rd for rd in _readers(ctx, "_loadop4_ascii") if rd["layout"] == "dense"]
+    if len(rds) != 1:
+        ctx.error("_loadop4_ascii: the reader of the dense layout", ctx.src.func(OP4, "OP4._loadop4_ascii"))
         return
+    w, rf = rds[0]["w"], rds[0]["fn"]
     fn = w.fn
-    rf = ctx.src.func(OP4, "OP4._rd_dense_ascii")
-    skf = ctx.src.func(OP4, "OP4._skipop4_ascii")
-    bound = w.bound.get(id(rf), {})
-    a = _skip_args(w, skf) or {}
-    pl, nl, pl2 = _role(bound, rf, "ascii", "perline"), _role(bound, rf, "ascii", "numlen"), _role(a, skf, "skip_ascii", "perline")
-    if not (_rat(pl) and _rat(nl) and _rat(pl2)):
-        ctx.error("_loadop4_ascii: perline / numlen passed to the reader and the skipper", fn)
+    cols_ = C.loops_of_call(w, rf)
+    puts = _stores_in(w, cols_[0]) if len(cols_) == 1 else []
+    if len(puts) != 1:
+        ctx.error(f"{rds[0]['name']}: store call of the column loop", rf)
         return
-    ok = C.same(pl, pl2, whole_values=False)
+    # values per line: what divides the number of values of a block into its lines; field width and text: what the store call is handed
+    L = _store_arg(ctx, w, puts[0], "count")
+    pl = _lines_divisor(C.total(cols_[0].items, "L"), L)
+    nl = _store_arg(ctx, w, puts[0], "width")
+    text = _store_arg(ctx, w, puts[0], "text")
+    if not (_rat(pl) and _rat(nl) and _rat(text)):
+        ctx.error("_loadop4_ascii: values per line / field width / text of a block as the dense reader uses them", fn,
+                  {"values per line": repr(pl)[:80], "field width": repr(nl)[:80]})
+        return
+    # the skipper's values-per-line, with its parameters standing for what the loader passes
+    cs = _ascii_cases(ctx)
+    pl2 = []
+    if cs["ok"]:
+        for _asg, _wl, ws in cs["cases"]:
+            for lp in C.loops_in(ws.top.items, deep=False):
+                sp = _lines_split(C.total(lp.items, "L"))
+                if sp is not None:
+                    pl2.append(cs["ren_s"](sp[1]))
+    ok = bool(pl2) and all(C.same(cs["ren_l"](pl), x, whole_values=False) for x in pl2)
     ctx.check(ok, "_loadop4_ascii: the skipper is given the values-per-line the reader is given", fn)
-    ll = _role(bound, rf, "ascii", "linelen")
-    ok = _rat(ll) and C.same(ll, pl * nl, whole_values=False)
-    ctx.check(ok, "_loadop4_ascii: the used part of a data line is perline * field width characters", fn)
+    # the used part of a data line: the bound every line of a block is cut at
+    cuts = []
+    for d in C.walk_atoms(text):
+        if d[0] == "fn" and d[1] == "idx":
+            base, ix = C._arg(d[2][0]), C._arg(d[2][1])
+            sp = C._slice_parts(ix)
+            pb = C.fn_parts(base)
+            if sp is not None and sp[0] is None and sp[1] is not None and sp[2] is None and pb is not None and pb[0] == "each":
+                cuts.append(sp[1])
+    ok = len(cuts) == 1 and C.same(cuts[0], pl * nl, whole_values=False)
+    ctx.check(ok, "_loadop4_ascii: the used part of a data line is perline * field width characters", fn,
+              None if ok else {"lines are cut at": [repr(c)[:200] for c in cuts]})
     for label, v in (("values per line", pl), ("field width", nl)):
         bad = []
         for meth, chars in _strip_calls(v):
@@ -1583,19 +1629,77 @@ def r7_announced_format(ctx):
 
 
 # ------------------------------------------------------------------------------------------------------------------ R8
+def _reachable(ctx, rel, cls, start):
+    """the functions of the class reachable from `start` through calls self.f(...) / Cls.f(...): [(qualified name, FunctionDef, caller)]"""
+    m = ctx.src.mod(rel)
+    seen, out, todo = {start}, [], [start]
+    while todo:
+        q = todo.pop(0)
+        f = m.funcs.get(q)
+        if f is None:
+            continue
+        for n in ast.walk(f):
+            if isinstance(n, ast.Call) and isinstance(n.func, ast.Attribute) and isinstance(n.func.value, ast.Name) and n.func.value.id in ("self", cls):
+                q2 = f"{cls}.{n.func.attr}"
+                if q2 in m.funcs and q2 not in seen:
+                    seen.add(q2)
+                    out.append((q2, m.funcs[q2], q))
+                    todo.append(q2)
+    return out
+
+
+def _is_predicate(f):
+    """every value the function returns is a truth value"""
+    rets = [n for n in ast.walk(f) if isinstance(n, ast.Return)]
+    if not rets:
+        return False
+    for r in rets:
+        v = r.value
+        if isinstance(v, ast.Constant) and isinstance(v.value, bool):
+            continue
+        if isinstance(v, (ast.Compare, ast.BoolOp)) or (isinstance(v, ast.UnaryOp) and isinstance(v.op, ast.Not)):
+            continue
+        if isinstance(v, ast.Call) and dotted_name(v.func) in ("any", "all", "bool"):
+            continue
+        return False
+    return True
+
+
+def dotted_name(n):
+    from .e1_srcmodel import dotted
+    return dotted(n)
+
+
 def r8_name_selection(ctx):
     """reading a named subset equals filtering a full read: a requested name without a wild card selects the data blocks of exactly that name"""
-    w = _w2(ctx, "_has_match", follow=False)
+    # the predicate that decides whether a data block name is requested: reached from rdop2mats, wherever it lives
+    ctx.src.func(OP2, "OP2.rdop2mats")
+    reach = _reachable(ctx, OP2, "OP2", "OP2.rdop2mats")
+    preds = [(q, f, caller) for q, f, caller in reach if _is_predicate(f) and len([a for a in f.args.args if a.arg not in ("self", "cls")]) == 2]
+    if len(preds) != 1:
+        ctx.error("rdop2mats: the predicate that matches a data block name against the requested names (a helper of two arguments that "
+                  "returns a truth value)", ctx.src.func(OP2, "OP2.rdop2mats"), [q for q, _f, _c in preds])
+        return
+    q, fn, caller = preds[0]
+    ctx.src.func(OP2, q)
+    w = _walk(ctx, OP2, "OP2", q, tag="alone", follow=False)
     if w is None:
         return
-    fn = w.fn
-    params = [a.arg for a in fn.args.args]
-    if len(params) != 2:
-        ctx.error("_has_match(name, names)", fn)
-        return
-    name = F.sym(params[0])
+    params = [a.arg for a in fn.args.args if a.arg not in ("self", "cls")]
+    # which argument is the name of a data block: the one the caller draws from the names of the directory, one at a time
+    cw = _walk(ctx, OP2, "OP2", caller, tag="alone", follow=False)
+    which = 0
+    if cw is not None:
+        calls = [e for e in cw.events if e[0] == "call" and (e[1] or "").split(".")[-1] == fn.name]
+        ctx.check(len(calls) >= 1, f"{caller.split('.')[-1]}: the requested names are applied through {fn.name} to the names of the directory", cw.fn, nontrivial=False)
+        for e in calls:
+            for i, v in enumerate(e[2][:2]):
+                if _rat(v) and (C.fn_parts(v) or ("",))[0] == "each":
+                    which = i
+    name = F.sym(params[which])
+    params = [params[which], params[1 - which]]
     if not w.returns:
-        ctx.error("_has_match: returned value", fn)
+        ctx.error(f"{fn.name}: returned value", fn)
         return
 
     def mentions(v, what):
@@ -1664,18 +1768,13 @@ def r8_name_selection(ctx):
     except Unsupported as e:
         undecided = str(e)
     if proved is None and undecided is not None:
-        ctx.error("_has_match: the condition under which a data block name is selected cannot be lowered", fn, undecided)
+        ctx.error("name filter of rdop2mats: the condition under which a data block name is selected cannot be lowered", fn, undecided)
     else:
-        ctx.check(proved is None, "_has_match: a name is selected only by equality with a requested name, or by its prefix when the requested name "
+        ctx.check(proved is None, "name filter of rdop2mats: a name is selected only by equality with a requested name, or by its prefix when the requested name "
                                   "carries the wild card `*` (never by a prefix test alone)", fn, proved)
     # both sides are compared in upper case
     ups = [d for r in w.returns for c in [x for x, _pol in r[1]] + [r[0]] if _rat(c) for d in C.walk_atoms(c) if d[0] == "fn" and d[1].endswith(".upper")]
-    ctx.check(bool(ups), "_has_match: requested names are compared in upper case (data block names are upper case)", fn, nontrivial=False)
-    gv = _w2(ctx, "_get_valid_names", follow=False)
-    if gv is not None:
-        calls = [e for e in gv.events if e[0] == "call" and e[1] == "self._has_match"]
-        ok = len(calls) >= 1
-        ctx.check(ok, "_get_valid_names: the requested names are applied through _has_match to the names of the directory", gv.fn, nontrivial=False)
+    ctx.check(bool(ups), "name filter of rdop2mats: requested names are compared in upper case (data block names are upper case)", fn, nontrivial=False)
 
 
 def _r6(ctx):
